@@ -41,6 +41,10 @@ pub fn c04_universe(tier: &str) -> Vec<Version> {
             }
         }
     }
+    // longer lists: prefix relations and a difference only at the fourth / fifth identifier
+    for t in ["a.b.c.d", "a.b.c.d.e", "a.b.c.10", "a.b.c.2", "a.b.c.2.0", "a.b.c.B", "0.0.0.0", "0.0.0.0.a", "1.2.3.4.5.6", "1.2.3.4.5.a", "a.b.c"] {
+        tags.push(t.to_string());
+    }
     let mut out = vec![];
     for t in &tags {
         out.push(ver(1, 0, 0, t));
